@@ -23,7 +23,7 @@ ASSUMPTIONS = [
     "after a failed edit the contents (cell tuples, raw_data) are claimed unchanged; identity of the internal list is not claimed",
 ]
 REQUIRED_LABELS = {
-    "quick": ["fn_success", "gen_success", "fn_fail_interior", "gen_fail_interior", "attached", "detached", "second_edit", "scribble", "failure_mid_history", "follow_up_after_failure", "project_saved_before_edit", "moved_existing_notes", "exc_StopIteration", "exc_BoomBase", "first_edit_on_never_read_pattern"],
+    "quick": ["fn_success", "gen_success", "fn_fail_interior", "gen_fail_interior", "attached", "detached", "second_edit", "scribble", "failure_mid_history", "follow_up_after_failure", "project_saved_before_edit", "moved_existing_notes", "exc_StopIteration", "exc_BoomBase", "first_edit_on_never_read_pattern", "notes_copied_from_another_pattern"],
     "thorough": ["fn_success", "gen_success", "fn_fail_interior", "gen_fail_interior", "attached", "detached", "second_edit", "scribble"],
 }
 
@@ -66,12 +66,12 @@ def case_strategy(draw, max_tracks, max_lines):
         elif kind == "fn":
             # a small palette of cells cycled over the pattern keeps cases small and shrinkable
             palette = draw(st.lists(cell, min_size=1, max_size=5))
-            edits.append({"kind": "fn", "palette": palette, "offset": draw(st.integers(0, 7)), "fail_at": draw(st.one_of(st.none(), st.none(), st.integers(0, ncells - 1))), "exc": draw(st.sampled_from(sorted(EXC_TYPES)))})
+            edits.append({"kind": "fn", "palette": palette, "offset": draw(st.integers(0, 7)), "fail_at": draw(st.one_of(st.none(), st.none(), st.integers(0, ncells - 1))), "exc": draw(st.sampled_from(sorted(EXC_TYPES))), "source": draw(st.sampled_from(NOTE_SOURCES))})
         else:
             k = draw(st.integers(0, min(ncells, 12)))
             idxs = draw(st.lists(st.integers(0, ncells - 1), min_size=k, max_size=k))
             cells = draw(st.lists(cell, min_size=k, max_size=k))
-            edits.append({"kind": "gen", "yields": [[i, c] for i, c in zip(idxs, cells)], "scribble": draw(st.booleans()), "fail_at": draw(st.one_of(st.none(), st.none(), st.integers(0, k))), "exc": draw(st.sampled_from(sorted(EXC_TYPES)))})
+            edits.append({"kind": "gen", "yields": [[i, c] for i, c in zip(idxs, cells)], "scribble": draw(st.booleans()), "fail_at": draw(st.one_of(st.none(), st.none(), st.integers(0, k))), "exc": draw(st.sampled_from(sorted(EXC_TYPES))), "source": draw(st.sampled_from(NOTE_SOURCES))})
     kf = draw(st.integers(0, min(ncells, 4)))
     follow = {"kind": "gen", "yields": [[draw(st.integers(0, ncells - 1)), draw(cell)] for _ in range(kf)], "scribble": False, "fail_at": None}
     return {
@@ -107,6 +107,27 @@ def mk_note(c):
     from rv.api import NOTECMD, Note
 
     return Note(note=NOTECMD(c[0]), vel=c[1], module=c[2], ctl=c[3], val=c[4])
+
+
+def supplied_note(c, source):
+    """The note a callable hands over for cell content c: a fresh Note, or a copy taken from a
+    cell of another pattern (clone() / copy.deepcopy - the usual ways of copying between patterns);
+    that other pattern may itself sit in another project."""
+    if not source or source == "fresh":
+        return mk_note(c)
+    import copy
+
+    from rv.api import NOTECMD, Pattern, Project
+
+    other = Pattern(tracks=1, lines=1)
+    if source.endswith("_attached"):
+        Project().attach_pattern(other)
+    n = other.data[0][0]
+    n.note, n.vel, n.module, n.ctl, n.val = NOTECMD(c[0]), c[1], c[2], c[3], c[4]
+    return n.clone() if source.startswith("clone") else copy.deepcopy(n)
+
+
+NOTE_SOURCES = ["fresh", "fresh", "clone_of_foreign", "clone_of_foreign_attached", "deepcopy_of_foreign", "deepcopy_of_foreign_attached"]
 
 
 def cells_of(pattern):
@@ -148,7 +169,7 @@ def apply_edit(pattern, edit, fail_at, before=None):
             calls["n"] += 1
             if fail_at is not None and i == fail_at:
                 raise make_exc(edit.get("exc"), i)
-            return mk_note(pal[(line * tracks + track + off) % len(pal)])
+            return supplied_note(pal[(line * tracks + track + off) % len(pal)], edit.get("source"))
 
         expected = [pal[(k + off) % len(pal)] for k in range(tracks * lines)]
         pattern.set_via_fn(fn)
@@ -162,7 +183,7 @@ def apply_edit(pattern, edit, fail_at, before=None):
                     new[0][0] = mk_note([1, 1, 1, 1, 1])
                     new[-1][-1].vel = 99
                 raise make_exc(edit.get("exc"), j)
-            yield idx // tracks, idx % tracks, mk_note(c)
+            yield idx // tracks, idx % tracks, supplied_note(c, edit.get("source"))
         if fail_at is not None and fail_at >= len(yields):
             if edit["scribble"]:
                 new[0][0].ctl = 0xBEEF
@@ -303,6 +324,8 @@ def run_case(ctx, case, only_fail_at=None):
                 raise PropertyViolation("C19.success.contents", "last edit (%s): cell %d is %r, expected %r" % (last["kind"], bad, got[bad], exp[bad]))
             check_ownership(pattern, project, "after last edit (%s)" % last["kind"])
             labels.add(last["kind"] + "_success")
+            if (last.get("source") or "fresh") != "fresh":
+                labels.add("notes_copied_from_another_pattern")
             if len(edits) > 1:
                 nontrivial_keys.append("success")
         else:
